@@ -1,41 +1,54 @@
 /-
-C19 line-protocol driver: the linear-algebra backward passes of `GPVerif.Model.NaturalGrad`, exact in `Rat`.
+C19 line-protocol driver: the linear-algebra backward passes, exact in `Rat`.
 (The kernel backward terms are generated definitions and are served by `drivers/C05.lean`: `F`, `B`.)
 
-  NB <gMu n×1> <gSigma n×n> <mu n×1>        naturalBackward: dout_deta1 (n×1) ; dout_deta2 (n×n)
-  CB <dout n×n> <L n×n> <Linv n×n>          choleskyBackward (n×n)
-  NGD <k n×1> <m n×1> <gm> <gv>             ngdExpecGrads: expec_vec_grad (n×1) ; expec_mat_grad (n×n)
+  NB <gMu n×1> <gSigma n×n> <mu n×1>        model naturalBackward: dout_deta1 (n×1) ; dout_deta2 (n×n)
+  CB <dout n×n> <L n×n> <Linv n×n>          model choleskyBackward (n×n)
+  NGD <k n×1> <m n×1> <gm> <gv>             model ngdExpecGrads: expec_vec_grad (n×1) ; expec_mat_grad (n×n)
+wave 3 — the definitions REGENERATED from the Python source (`Gen/NaturalGrad.lean`) next to the model:
+  GB <dout_dmu n×1> <dout_dL n×n> <mu n×1> <L n×n> <C n×n>
+       gen naturalBackward.1 ; .2 ; gen trilBackward.1 ; .2  |  model dout_deta1 ; dout_deta2 ; trilTangent
+  NGDX <K n×d> <natural_vec n×1> <natural_mat n×n> <gm d×1> <gv d×1> <gk>
+       gen ngdForward (interp_mean ; interp_var) ; gen ngdBackward on the saved tensors (3 gradients)
+       |  model interp_mean ; interp_var ; interp_term_grad ; expec_vec_grad ; expec_mat_grad
+       (`linear_cg` is served by the certified exact inverse; `singular` when −2·natural_mat is not invertible)
 -/
-import GPVerif.Model.NaturalGrad
-import GPVerif.Model.Proto
+import GPVerif.Model.NaturalGradDriver
+import GPVerif.Gen.NaturalGrad
 
-open Proto
-
-def mk (n m : Nat) (rows : Array (Array Rat)) : DMat n m Rat := DMat.ofRaw rows
+open Proto NaturalGradDriver
 
 def step (line : String) : String :=
+  match stepOld line with
+  | some r => r
+  | none =>
   match tokens line with
-  | "NB" :: ts => Id.run do
+  | "GB" :: ts => Id.run do
       let some (n, _, g, ts) := takeMat? ts | return "bad-request"
-      let some (_, _, S, ts) := takeMat? ts | return "bad-request"
-      let some (_, _, mu, _) := takeMat? ts | return "bad-request"
-      let r := NaturalGrad.naturalBackward (mk n 1 g) (mk n n S) (mk n 1 mu)
-      return showRows r.1.toRows ++ " ; " ++ showRows r.2.toRows
-  | "CB" :: ts => Id.run do
-      let some (n, _, d, ts) := takeMat? ts | return "bad-request"
+      let some (_, _, gL, ts) := takeMat? ts | return "bad-request"
+      let some (_, _, mu, ts) := takeMat? ts | return "bad-request"
       let some (_, _, L, ts) := takeMat? ts | return "bad-request"
-      let some (_, _, Li, _) := takeMat? ts | return "bad-request"
-      return showRows (NaturalGrad.choleskyBackward (mk n n d) (mk n n L) (mk n n Li)).toRows
-  | "NGD" :: ts => Id.run do
-      let some (n, _, k, ts) := takeMat? ts | return "bad-request"
-      let some (_, _, m, ts) := takeMat? ts | return "bad-request"
-      match ts with
-      | [gm, gv] =>
-        let some gm := parseRat? gm | return "bad-request"
-        let some gv := parseRat? gv | return "bad-request"
-        let r := NaturalGrad.ngdExpecGrads (mk n 1 k) (mk n 1 m) gm gv
-        return showRows r.1.toRows ++ " ; " ++ showRows r.2.toRows
-      | _ => return "bad-request"
+      let some (_, _, C, _) := takeMat? ts | return "bad-request"
+      let (gMu, gL, mu, L, C) := (mk n 1 g, mk n n gL, mk n 1 mu, mk n n L, mk n n C)
+      let a := Gen.NaturalGrad.naturalBackward gMu gL mu L C
+      let b := Gen.NaturalGrad.trilBackward gMu gL mu L C
+      return sh a.1 ++ " ; " ++ sh a.2 ++ " ; " ++ sh b.1 ++ " ; " ++ sh b.2 ++ " | " ++ gbModel gMu gL mu L C
+  | "NGDX" :: ts => Id.run do
+      let some (n, d, K, ts) := takeMat? ts | return "bad-request"
+      let some (_, _, nv, ts) := takeMat? ts | return "bad-request"
+      let some (_, _, Θ, ts) := takeMat? ts | return "bad-request"
+      let some (_, _, gm, ts) := takeMat? ts | return "bad-request"
+      let some (_, _, gv, ts) := takeMat? ts | return "bad-request"
+      let [gk] := ts | return "bad-request"
+      let some gk := parseRat? gk | return "bad-request"
+      let (K, nv, Θ, gm, gv) := (mk n d K, mk n 1 nv, mk n n Θ, mk d 1 gm, mk d 1 gv)
+      let some S := DMat.inv? (Θ.smul (-2)) | return "singular"
+      let cg : DMat n n Rat → DMat n (1 + d) Rat → DMat n (1 + d) Rat :=
+        fun P R => match DMat.inv? P with | some X => X.mul R | none => R
+      let (im, iv, _, s0, s1, s2, s3, s4, s5) := Gen.NaturalGrad.ngdForward cg K nv Θ
+      let (g1, g2, g3) := Gen.NaturalGrad.ngdBackward gm gv gk s0 s1 s2 s3 s4 s5
+      return sh im ++ " ; " ++ sh iv ++ " ; " ++ sh g1 ++ " ; " ++ sh g2 ++ " ; " ++ sh g3 ++ " | " ++
+        ngdxModel K nv Θ S gm gv gk
   | _ => "bad-request"
 
 def main : IO Unit := Proto.main step
